@@ -574,9 +574,13 @@ func mergeMC(s *part, root, tier string, results []hx.ShardResult, total, notSta
 					"distinct_outcomes": st.Outcomes, "sample_outcomes": st.SampleOutcomes, "exhaustive_within_bound": st.Exhaustive,
 				})
 			}
-			for _, v := range st.Violations {
+			for vi, v := range st.Violations {
 				rf := hx.ReplayFile{Property: s.ID, Part: s.Name, Scenario: r.Name, Class: r.Class, Choices: v.Choices, Msg: v.Msg, Detail: v.Detail, Logs: v.Logs, Tier: tier}
-				path := evid.SaveReplay(s.ID, r.Name, rf)
+				rname := r.Name
+				if vi > 0 {
+					rname = fmt.Sprintf("v%d_%s", vi+1, r.Name)
+				}
+				path := evid.SaveReplay(s.ID, rname, rf)
 				msg := fmt.Sprintf("scenario %q, schedule cost %d, deterministic on 5 replays: %v\n%s", r.Name, v.Cost, v.Stable, v.Msg)
 				if !v.Stable {
 					fatal("nondeterministic violation (machinery fault, not reported as a violation):\n%s", msg)
